@@ -42,12 +42,20 @@ pub fn register(vm: &mut VM) -> Result<StdModuleExports, RuntimeError> {
 }
 
 fn native_print(vm: &mut VM, args: &[Value]) -> Result<Value, RuntimeError> {
+    #[cfg(vbxq_aelys_lang_verif)]
+    if crate::verif::sink_write(&vm.value_to_string(args[0])) {
+        return Ok(Value::null());
+    }
     print!("{}", vm.value_to_string(args[0]));
     let _ = io::stdout().flush();
     Ok(Value::null())
 }
 
 fn native_println(vm: &mut VM, args: &[Value]) -> Result<Value, RuntimeError> {
+    #[cfg(vbxq_aelys_lang_verif)]
+    if crate::verif::sink_write(&format!("{}\n", vm.value_to_string(args[0]))) {
+        return Ok(Value::null());
+    }
     println!("{}", vm.value_to_string(args[0]));
     Ok(Value::null())
 }
@@ -138,6 +146,10 @@ fn native_eflush(_vm: &mut VM, _args: &[Value]) -> Result<Value, RuntimeError> {
 }
 
 fn native_print_inline(vm: &mut VM, args: &[Value]) -> Result<Value, RuntimeError> {
+    #[cfg(vbxq_aelys_lang_verif)]
+    if crate::verif::sink_write(&vm.value_to_string(args[0])) {
+        return Ok(Value::null());
+    }
     print!("{}", vm.value_to_string(args[0]));
     let _ = io::stdout().flush();
     Ok(Value::null())
